@@ -533,6 +533,101 @@ fn main() {
         );
     }
 
+    // ------------------------------------------------------------ long inputs of the ordering filters
+    // std's sort panics when it notices that the comparison is not a total order - but only looks
+    // for that on inputs of more than 20 elements. Values whose mutual order is the delicate part
+    // of `Ord for Value` (the three zeros, NaN of both signs, the same number in several
+    // encodings, a fraction, incomparable kinds), every subset of 2..4 of them laid out over
+    // 21 / 24 / 33 / 64 positions in 8 arrangements, through every filter that orders or hashes.
+    {
+        let pool: Vec<V> = vec![
+            V::I64(0),
+            V::F64(0.0),
+            V::F64(-0.0),
+            V::F64(f64::NAN),
+            V::F64(-f64::NAN),
+            V::I64(1),
+            V::F64(1.0),
+            V::U128(1),
+            V::I64(-1),
+            V::F64(0.5),
+            V::F64(f64::INFINITY),
+            V::s("a"),
+            V::None,
+            V::Arr(vec![V::F64(-0.0)]),
+            V::Arr(vec![V::I64(0)]),
+        ];
+        fn subsets(n: usize, k: usize, start: usize, cur: &mut Vec<usize>, out: &mut Vec<Vec<usize>>) {
+            if cur.len() == k {
+                out.push(cur.clone());
+                return;
+            }
+            for i in start..n {
+                cur.push(i);
+                subsets(n, k, i + 1, cur, out);
+                cur.pop();
+            }
+        }
+        let mut bases: Vec<Vec<usize>> = vec![];
+        for k in 2..=(if thorough { 5 } else { 4 }) {
+            subsets(pool.len(), k, 0, &mut vec![], &mut bases);
+        }
+        const LENGTHS: [usize; 4] = [21, 24, 33, 64];
+        const ARRANGEMENTS: [&str; 8] = ["round-robin", "round-robin-reversed", "blocks", "blocks-reversed", "stride-5", "stride-13", "organ-pipe", "pairs-round-robin"];
+        let layout = |pat: usize, m: usize, n: usize, i: usize| -> usize {
+            let block = |j: usize| j.min(n - 1) * m / n;
+            match pat {
+                0 => i % m,
+                1 => m - 1 - i % m,
+                2 => block(i),
+                3 => block(n - 1 - i),
+                4 => block((i * 5) % n),
+                5 => block((i * 13) % n),
+                6 => block(if i < n / 2 { 2 * i } else { 2 * (n - 1 - i) + 1 }),
+                _ => (i / 2) % m,
+            }
+        };
+        let mut t = Tera::default();
+        let srcs = [
+            ("sort.txt", "{{ xs | sort }}"),
+            ("unique.txt", "{{ xs | unique }}"),
+            ("sortattr.txt", "{{ ws | sort(attribute=\"k\") }}"),
+            ("uniqueattr.txt", "{{ ws | unique(attribute=\"k\") }}"),
+            ("groupby.txt", "{{ ws | group_by(attribute=\"k\") }}"),
+            ("minmax.txt", "{% for x in xs | sort %}{{ x }},{% endfor %}{{ xs | sort | first }}{{ xs | sort | last }}"),
+        ];
+        let add = engine::add_templates(&mut t, &srcs.iter().map(|(n, s)| (n.to_string(), s.to_string())).collect::<Vec<_>>());
+        let nb = bases.len() as u64;
+        run.family(
+            Family::new(
+                "long-ordering-inputs",
+                nb,
+                &format!("every subset of size 2..{} of {} order-delicate values ({nb} subsets) x lengths {LENGTHS:?} x {} arrangements x {} programs (sort, unique, sort / unique / group_by by attribute, loop over a sorted array): text or error, never a panic", if thorough { 5 } else { 4 }, pool.len(), ARRANGEMENTS.len(), srcs.len()),
+            )
+            .describe(|i| json!({"base": bases[i as usize].iter().map(|&k| pool[k].describe()).collect::<Vec<_>>()})),
+            |item, acc: &mut Acc| {
+                if !add.is_ok() {
+                    acc.violation("long-ordering-inputs:programs-refused", format!("the programs were refused: {}", add.show()), || json!({"programs": srcs}));
+                    return;
+                }
+                let base = &bases[item as usize];
+                for n in LENGTHS {
+                    for (pat, pname) in ARRANGEMENTS.iter().enumerate() {
+                        let idx: Vec<usize> = (0..n).map(|i| base[layout(pat, base.len(), n, i)]).collect();
+                        let xs = V::Arr(idx.iter().map(|&k| pool[k].clone()).collect());
+                        let ws = V::Arr(idx.iter().enumerate().map(|(i, &k)| V::map(&[("k", pool[k].clone()), ("id", V::I64(i as i64))])).collect());
+                        let ctx = mccore::vals::context(&[("xs", &xs), ("ws", &ws)]);
+                        for (name, src) in srcs {
+                            let prog = Program { templates: vec![], entry: name.to_string(), blocks: vec![], components: vec![] };
+                            let case = || json!({"program": src, "base": base.iter().map(|&k| pool[k].describe()).collect::<Vec<_>>(), "length": n, "arrangement": pname, "xs": xs.describe(), "ws": "[{\"k\": xs[i], \"id\": i} for every position i]"});
+                            totality(&t, &prog, &ctx, acc, "long-ordering-inputs", &format!("long:{}", name.trim_end_matches(".txt")), true, &case);
+                        }
+                    }
+                }
+            },
+        );
+    }
+
     // ------------------------------------------------------------ reuse: C02 / C03 program spaces
     const SHARDS: u64 = 32;
     run.family(
